@@ -176,6 +176,52 @@ def judge(ff, g, before, after, residues):
     return bad
 
 
+def spec_table(before, residues, edges, links):
+    """the statement, recomputed independently of the Coq model: every link, every assignment of its residue orders to
+    residues that is an induced match of the link's residue pattern with admissible relative order, every link atom
+    identifying exactly one atom; writes keyed by (section, atoms, version), applied in force-field order and, per link,
+    in the order of the residues involved; later writes win"""
+    import itertools
+    from vermouth.processors.do_links import match_order
+    resid = {k: r for k, r, _ in residues}
+    atoms_of = {k: atoms for k, _, atoms in residues}
+    adj = {frozenset(e) for e in edges}
+    table = {}
+    for sec, rows in before['inters'].items():
+        for r in rows:
+            ver = int(r['meta'].get('version', 1))
+            while (sec, tuple(r['atoms']), ver) in table:
+                ver += 1
+            table[(sec, tuple(r['atoms']), ver)] = (tuple(r['params']), tuple(sorted((str(k), str(v)) for k, v in r['meta'].items())))
+    for link in links:
+        orders = link['rnodes']
+        ledges = {frozenset(e) for e in link['redges']}
+        matches = []
+        for nodes in itertools.permutations(list(resid), len(orders)):
+            ok = True
+            for (o1, n1), (o2, n2) in itertools.combinations(list(zip(orders, nodes)), 2):
+                if (frozenset((o1, o2)) in ledges) != (frozenset((n1, n2)) in adj) or not match_order(o1, resid[n1], o2, resid[n2]):
+                    ok = False
+                    break
+            if ok:
+                matches.append(dict(zip(orders, nodes)))
+        matches.sort(key=lambda mu: sorted((resid[n], str(o)) for o, n in mu.items()))
+        for mu in matches:
+            m = {}
+            for la in link['atoms']:
+                cands = [a for a, n, rn in atoms_of[mu[la['order']]] if n == la['name'] and rn in la['resnames']]
+                if len(cands) != 1:
+                    m = None
+                    break
+                m[la['key']] = cands[0]
+            if m is None:
+                continue
+            for i in link['inters']:
+                if all(k in m for k in i['atoms']):
+                    table[(i['sec'], tuple(m[k] for k in i['atoms']), i['version'])] = (tuple(i['params']), tuple(tuple(x) for x in i['meta']))
+    return sorted((k[0], k[1], v[0], v[1]) for k, v in table.items())
+
+
 def dangling_cases(ctx):
     """dangling interactions of monomer .itp files behave as the equivalent next-residue links"""
     import io
@@ -266,6 +312,14 @@ def run(ctx):
                  sample={'ff': text[-500:], 'resnames': g['resnames'], 'shape': g['shape'], 'interactions_before': nb, 'after': na})
         for b in judge(ff, g, before, after, residues)[:1]:
             ctx.violation('spec', f"C02 fails on the implementation: {b}", {'ff': ff, 'graph': g, 'failure': b})
+        want = spec_table(before, residues, edges, links)
+        got = sorted((sec, tuple(x['atoms']), tuple(x['params']), tuple(sorted((str(k), str(v)) for k, v in x['meta'].items())))
+                     for sec, rows in after['inters'].items() for x in rows)
+        if want != got:
+            only_spec = [x for x in want if x not in got][:2]
+            only_impl = [x for x in got if x not in want][:2]
+            ctx.violation('spec', f"C02 fails on the implementation: interactions where a link matches {only_spec} are missing or differ; "
+                          f"the molecule has {only_impl} which no matching link defines", {'ff': ff, 'graph': g, 'failure': 'link table'})
         # block interactions are all kept: terms on the same atoms without explicit version get consecutive versions
         seen_keys, block_rows = set(), []
         for sec, rows in before['inters'].items():
@@ -324,6 +378,11 @@ def replay(ctx, data):
     if 'ff' in data and 'graph' in data:
         text, before, after, residues, edges, links = run_case(data['ff'], data['graph'])
         bad = judge(data['ff'], data['graph'], before, after, residues)
+        want = spec_table(before, residues, edges, links)
+        got = sorted((sec, tuple(x['atoms']), tuple(x['params']), tuple(sorted((str(k), str(v)) for k, v in x['meta'].items())))
+                     for sec, rows in after['inters'].items() for x in rows)
+        if want != got:
+            bad.append('the interactions of the molecule are not those of the matching links')
         print('replay:', bad[:3] or 'statement satisfied')
         return 1 if bad else 0
     return 0
